@@ -5,3 +5,159 @@ use crate::verif_v::{Lit, verif_struct};
 
 verif_struct!(GaloisTool, "crate::util::verif_v::galois::mk_galois_tool", mk_galois_tool, {
     coeff_count_power: usize, coeff_count: usize, permutation_tables: RwLock<Vec<Vec<usize>>> });
+
+#[cfg(kani)]
+mod proofs {
+    use super::*;
+    use crate::modulus::verif_v::mk_modulus;
+
+    fn tool(logn: usize) -> GaloisTool {
+        // same state as GaloisTool::new(logn) (checked: c04_new_state)
+        let n = 1usize << logn;
+        mk_galois_tool(logn, n, RwLock::new(vec![vec![]; n]))
+    }
+
+    fn check_apply<const N: usize>(logn: usize) {
+        let t = tool(logn);
+        let q = 17u64; let m = mk_modulus(q, true);
+        let g: usize = kani::any(); kani::assume(g < 2 * N && g & 1 == 1);
+        let a: [u8; N] = kani::any();
+        let mut v = [0u64; N]; let mut k = 0; while k < N { kani::assume((a[k] as u64) < q); v[k] = a[k] as u64; k += 1; }
+        let mut r = [0u64; N];
+        t.apply(&v, g, &m, &mut r);
+        let i: usize = kani::any(); kani::assume(i < N);
+        // X^i -> X^(i*g) = (-1)^floor(i*g/N) X^(i*g mod N)
+        let e = i * g; let idx = e % N; let neg = (e / N) & 1 == 1;
+        kani::cover!(neg && v[i] != 0);
+        assert!(r[idx] == if neg { (q - v[i]) % q } else { v[i] });
+    }
+
+    // @harness id=C04 tier=quick unwind=18 timeout=900
+    // @desc GaloisTool::apply(p, g) = p(X^g) in Z_q[X]/(X^N+1): coefficient i moves to index i*g mod N with sign (-1)^floor(i*g/N), for every odd g < 2N and every coefficient vector (full-length operand)
+    // @bounds N in {2, 4, 8, 16} (symbolic choice, concrete per case), q = 17, g symbolic odd, all coefficient vectors, index i symbolic
+    // @funcs GaloisTool::apply, negate_u64_mod
+    #[kani::proof]
+    fn c04_apply_is_substitution() {
+        let c: u8 = kani::any();
+        match c { 0 => check_apply::<2>(1), 1 => check_apply::<4>(2), 2 => check_apply::<8>(3), _ => check_apply::<16>(4) }
+    }
+
+    // @harness id=C04 tier=quick unwind=10 timeout=600 kf=galois_apply_short_operand
+    // @desc GaloisTool::apply with an operand SHORTER than N treats the missing coefficients as zero (the code's `else {0}` branch) and does not read past the operand
+    // @bounds N=4, q=17, operand length 1..3 (concrete per case), odd g symbolic
+    // @funcs GaloisTool::apply
+    #[kani::proof]
+    fn c04_apply_short_operand() {
+        let t = tool(2);
+        let q = 17u64; let m = mk_modulus(q, true);
+        let g: usize = kani::any(); kani::assume(g < 8 && g & 1 == 1);
+        let a: [u8; 4] = kani::any();
+        kani::assume(a[0] < 17 && a[1] < 17 && a[2] < 17);
+        let v = [a[0] as u64, a[1] as u64, a[2] as u64, 0];
+        let mut r = [0u64; 4]; let mut rs = [0u64; 4];
+        t.apply(&v, g, &m, &mut r);
+        let c: u8 = kani::any();
+        match c { 0 => { kani::assume(a[1] == 0 && a[2] == 0); t.apply(&v[..1], g, &m, &mut rs) }
+                  1 => { kani::assume(a[2] == 0); t.apply(&v[..2], g, &m, &mut rs) }
+                  _ => t.apply(&v[..3], g, &m, &mut rs) }
+        kani::cover!(true);
+        assert!(rs[0] == r[0] && rs[1] == r[1] && rs[2] == r[2] && rs[3] == r[3]);
+    }
+
+    fn check_table<const N: usize>(logn: usize) {
+        let t = tool(logn);
+        let g: usize = kani::any(); kani::assume(g < 2 * N && g & 1 == 1);
+        let tab = t.generate_table_ntt(g);
+        assert!(tab.len() == N);
+        let i: usize = kani::any(); kani::assume(i < N);
+        // NTT slot i holds the evaluation at psi^(e_i), e_i = 2*bitrev(i)+1.  p(X^g) at psi^(e_i) = p at psi^(g*e_i):
+        // the table must point at the slot j with e_j = g*e_i mod 2N
+        let e_i = 2 * crate::util::reverse_bits_u32(i as u32, logn) as usize + 1;
+        let j = tab[i]; assert!(j < N);
+        let e_j = 2 * crate::util::reverse_bits_u32(j as u32, logn) as usize + 1;
+        kani::cover!(j != i);
+        assert!(e_j == (g * e_i) % (2 * N));
+        // apply_ntt uses (and caches) exactly this table
+        let a: [u64; N] = kani::any();
+        let mut r = [0u64; N];
+        t.apply_ntt(&a, g, &mut r);
+        assert!(r[i] == a[j]);
+        let cached = t.permutation_tables.read().unwrap();
+        assert!(cached[(g - 1) / 2].len() == N && cached[(g - 1) / 2][i] == j);
+    }
+
+    // @harness id=C04 tier=quick unwind=18 timeout=900
+    // @desc generate_table_ntt(g)[i] is the NTT slot whose evaluation point is the g-th power of slot i's point (so apply_ntt is the NTT-domain image of X -> X^g); apply_ntt permutes by that table and caches it at index (g-1)/2
+    // @bounds N in {4, 8, 16} (concrete per case), every odd g < 2N, slot index symbolic, operand words arbitrary u64
+    // @funcs GaloisTool::generate_table_ntt, GaloisTool::apply_ntt, GaloisTool::get_index_from_elt, reverse_bits_u32
+    #[kani::proof]
+    fn c04_ntt_table_is_substitution() {
+        let c: u8 = kani::any();
+        match c { 0 => check_table::<4>(2), 1 => check_table::<8>(3), _ => check_table::<16>(4) }
+    }
+
+    fn pow3(e: usize, m: usize) -> usize { let mut r = 1usize; let mut i = 0; while i < e { r = (r * 3) % m; i += 1; } r }
+
+    fn check_steps(logn: usize) {
+        let t = tool(logn);
+        let n = 1usize << logn; let m = 2 * n;
+        let s: isize = kani::any(); kani::assume(s > -((n / 2) as isize) && s < (n / 2) as isize);
+        let e = t.get_elt_from_step(s);
+        kani::cover!(s < 0);
+        if s == 0 { assert!(e == m - 1); }
+        else if s > 0 { assert!(e == pow3(s as usize, m)); }
+        else { assert!(e == pow3(n / 2 - (-s) as usize, m)); assert!((e * pow3((-s) as usize, m)) % m == 1); }
+        assert!(e & 1 == 1 && e < m);
+    }
+
+    // @harness id=C04 tier=quick unwind=34 timeout=900
+    // @desc get_elt_from_step(s) = 3^s mod 2N for 0 < s < N/2, the inverse power 3^(N/2-|s|) for negative s (so step s followed by -s is the identity), and 2N-1 for s = 0
+    // @bounds N in {4, 8, 16, 32} (concrete per case), every step with |s| < N/2
+    // @funcs GaloisTool::get_elt_from_step
+    #[kani::proof]
+    fn c04_elt_from_step() {
+        let c: u8 = kani::any();
+        match c { 0 => check_steps(2), 1 => check_steps(3), 2 => check_steps(4), _ => check_steps(5) }
+    }
+
+    fn check_elts_all(logn: usize) {
+        let t = tool(logn);
+        let n = 1usize << logn; let m = 2 * n;
+        let v = t.get_elts_all();
+        assert!(v.len() == 2 * (logn - 1) + 1 && v[0] == m - 1);
+        let k: usize = kani::any(); kani::assume(k < logn - 1);
+        // entries 1+2k, 2+2k: 3^(2^k) and its inverse
+        let p = pow3(1usize << k, m);
+        kani::cover!(k > 0);
+        assert!(v[1 + 2 * k] == p);
+        assert!((v[2 + 2 * k] * p) % m == 1);
+    }
+
+    // @harness id=C04 tier=quick unwind=34 timeout=900
+    // @desc get_elts_all() = [2N-1, 3^(2^k), 3^-(2^k) for k = 0..log2(N)-2]: exactly the default key set that NAF-composed rotations rely on
+    // @bounds N in {4, 8, 16, 32}
+    // @funcs GaloisTool::get_elts_all, try_invert_u64_mod_u64
+    #[kani::proof]
+    fn c04_elts_all() {
+        let c: u8 = kani::any();
+        match c { 0 => check_elts_all(2), 1 => check_elts_all(3), 2 => check_elts_all(4), _ => check_elts_all(5) }
+    }
+
+    // @harness id=C04 tier=quick unwind=10 timeout=300
+    // @desc GaloisTool::new(k) produces coeff_count = 2^k and 2^k empty permutation tables (the state the other C04 harnesses start from)
+    // @bounds k in {1, 2, 3}
+    // @funcs GaloisTool::new
+    #[kani::proof]
+    fn c04_new_state() {
+        fn one(k: usize) {
+            let t = GaloisTool::new(k);
+            assert!(t.coeff_count_power == k && t.coeff_count == 1 << k);
+            let tabs = t.permutation_tables.read().unwrap();
+            kani::cover!(k == 3);
+            assert!(tabs.len() == 1 << k && tabs[0].is_empty() && tabs[(1 << k) - 1].is_empty());
+        }
+        one(1); one(2); one(3);
+    }
+
+    #[cfg(test)] include!("/verif/.build/playback/util_galois_v.rs");
+}
